@@ -316,6 +316,84 @@ def run(chk, repo, tier):
         for v in accs:
             chk.instance(D4, f'{f.qualname}: accumulator `{v}` extended in place')
 
+    # ---------------------------------------------------------------- D6 closure of keep / remove sets
+    D6 = chk.rule('D6', 'sets grown from the dependency graph in a single pass over a copy use a transitive traversal '
+                        '(not one-step adjacency)', floor=2)
+    TRANSITIVE = {'dfs_preorder_nodes', 'dfs_postorder_nodes', 'dfs_edges', 'descendants', 'ancestors', 'bfs_tree',
+                  'dfs_tree', 'bfs_edges', 'bfs_predecessors', 'bfs_successors', 'transitive_closure'}
+    ONE_STEP = {'successors', 'predecessors', 'neighbors', 'adj', 'out_edges', 'in_edges', 'edges'}
+    for f in repo.all_funcs():
+        if f.module.name not in ('pharmpy.model.statements', 'pharmpy.modeling.expressions'):
+            continue
+        for L in [x for x in walk_no_nested(f.node) if isinstance(x, ast.For)]:
+            it = L.iter
+            if not (isinstance(it, ast.Call) and isinstance(it.func, ast.Attribute) and it.func.attr == 'copy'
+                    and isinstance(it.func.value, ast.Name)):
+                continue
+            sv = it.func.value.id
+            for st_ in L.body:
+                for n in ast.walk(st_):
+                    grow = None
+                    if isinstance(n, ast.AugAssign) and isinstance(n.op, ast.BitOr) and isinstance(n.target, ast.Name) \
+                            and n.target.id == sv:
+                        grow = n.value
+                    elif isinstance(n, ast.Call) and isinstance(n.func, ast.Attribute) and n.func.attr == 'update' \
+                            and isinstance(n.func.value, ast.Name) and n.func.value.id == sv and n.args:
+                        grow = n.args[0]
+                    if grow is None:
+                        continue
+                    apis = {c.func.attr if isinstance(c.func, ast.Attribute) else getattr(c.func, 'id', '')
+                            for c in ast.walk(grow) if isinstance(c, ast.Call)}
+                    apis |= {a.attr for a in ast.walk(grow) if isinstance(a, ast.Attribute)}
+                    trans, one = apis & TRANSITIVE, apis & ONE_STEP
+                    chk.instance(D6, f'{f.qualname}: for _ in {sv}.copy(): {sv} |= {unparse(grow)[:50]} '
+                                     f'(transitive {sorted(trans)}, one-step {sorted(one)})')
+                    if one and not trans:
+                        chk.violation(D6, f.module.rel, f.qualname, f'{sv} |= {unparse(grow)}',
+                                      f'`{sv}` is extended by direct neighbours in a single pass over a copy: dependencies two '
+                                      f'or more levels down are not included', line=n.lineno,
+                                      witness='WTS = WGT/70; TVQ = TH3*WTS**2; Q = TVQ*(1+ETA2); Y = ... (Q removed); QOUT = 2*Q: '
+                                              'the definition of WTS is deleted although QOUT still needs it')
+                    elif not one and not trans:
+                        raise AnalysisError(f'D6: unknown graph API in {f.qualname}: {unparse(grow)}')
+
+    # ---------------------------------------------------------------- D7 users on both sides protect a definition
+    D7 = chk.rule('D7', 'remove_symbol_definitions: a definition is protected by every remaining user, before or after the '
+                        'edited statement', floor=1)
+    from sa import tables as T_
+    stc = m.classes.get("Statements")
+    rsd = stc.methods.get('remove_symbol_definitions')
+    if rsd is None:
+        raise AnalysisError('remove_symbol_definitions not found')
+    comps = [n for n in walk_no_nested(rsd.node) if isinstance(n, (ast.SetComp, ast.ListComp, ast.GeneratorExp))
+             and any(isinstance(a, ast.Attribute) and a.attr == 'edges' for a in ast.walk(n.generators[0].iter))
+             and n.generators[0].ifs]
+    if not comps:
+        raise AnalysisError('D7: edge comprehension with filter not found in remove_symbol_definitions')
+    for comp in comps:
+        gen = comp.generators[0]
+        if not (isinstance(gen.target, ast.Tuple) and len(gen.target.elts) == 2):
+            raise AnalysisError(f'D7: unexpected comprehension target {unparse(gen.target)}')
+        up, down = [e.id for e in gen.target.elts]
+        free = {x.id for c_ in gen.ifs for x in ast.walk(c_) if isinstance(x, ast.Name)} - {up, down}
+        # abstract positions of the user relative to the edited statement; the user is a remaining statement
+        # (not a candidate), the definition is a candidate
+        res = {}
+        for pos, upv in (('before', 3), ('edited', 5), ('after', 7)):
+            env = {up: upv, down: 1}
+            for nm in free:
+                env[nm] = {1} if 'cand' in nm else 5
+            try:
+                res[pos] = all(T_.eval_pred(c_, env) for c_ in gen.ifs)
+            except T_.Undecidable as e:
+                raise AnalysisError(f'D7: cannot evaluate {unparse(comp)}: {e}')
+        chk.instance(D7, f'{unparse(comp)[:90]}: protects for user {res}')
+        if not (res['before'] and res['after']) or res['edited']:
+            chk.violation(D7, stc.module.rel, rsd.qualname, unparse(comp),
+                          f'users that protect a candidate definition: {res} (must be before: True, after: True, the edited '
+                          f'statement itself: False)', line=comp.lineno,
+                          witness='A = 1; B = A + 1; Y = A + 2 edited to Y = 2; Z = 2*B: A is removed although B still uses it')
+
 
 def _parent(root, node):
     for p in ast.walk(root):
